@@ -364,3 +364,52 @@ Fixpoint xref_lookup {V} (l : list (cobj V)) (num : N) (acc : option (nat * N)) 
            end in
     xref_lookup l' num acc'
   end.
+
+(* ---------- getTrailer (MakeReader) ---------- *)
+(* the outcome of reading a trailer candidate: a dictionary, malformed or cut-off content, or
+   a failing byte source (isSourceFailure) *)
+Inductive tout (T : Type) := TOk (t : T) | TBad | TSource.
+Arguments TOk {T} t. Arguments TBad {T}. Arguments TSource {T}.
+
+(* what getTrailer looks at in one section: the LAST object that checkObjects classified as a
+   stream with /Type /XRef and the outcome of reading it (Some d: it has /Root), the position of
+   the keyword trailer (0: none) and the outcome of readTrailer there *)
+Record tsec (T : Type) := {
+  ts_xstm : option (tout (option T));
+  ts_trailerpos : nat;
+  ts_trailer : tout T
+}.
+Arguments ts_xstm {T}. Arguments ts_trailerpos {T}. Arguments ts_trailer {T}.
+
+(* sections newest first *)
+Fixpoint get_trailer {T} (secs : list (tsec T)) : res T :=
+  match secs with
+  | [] => Err Other                               (* no trailer found *)
+  | s :: rest =>
+    match ts_xstm s with
+    | Some (TOk (Some d)) => Ok d                 (* method 1: a cross-reference stream with /Root *)
+    | Some TSource => Err (IO 0)
+    | _ =>
+      (* method 2: the trailer dictionary of the section *)
+      if Nat.eqb (ts_trailerpos s) 0 then get_trailer rest
+      else match ts_trailer s with
+           | TOk d => Ok d
+           | TSource => Err (IO 0)
+           | TBad => get_trailer rest
+           end
+    end
+  end.
+
+(* the view of a located section: px tells which located objects are xref streams (and how
+   reading them ends), pt how readTrailer ends at a position *)
+Fixpoint last_some {A B} (f : A -> option B) (l : list A) (acc : option B) : option B :=
+  match l with
+  | [] => acc
+  | x :: l' => last_some f l' (match f x with Some y => Some y | None => acc end)
+  end.
+Definition section_tsec {T} (px : nat -> option (tout (option T))) (pt : nat -> tout T) (s : fsec) : tsec T :=
+  {| ts_xstm := last_some (fun o => px (fo_start o)) (fs_objs s) None;
+     ts_trailerpos := fs_trailer s;
+     ts_trailer := pt (fs_trailer s) |}.
+Definition scan_trailer {T} (px : nat -> option (tout (option T))) (pt : nat -> tout T) (secs : list fsec) : res T :=
+  get_trailer (map (section_tsec px pt) (rev secs)).
